@@ -104,6 +104,13 @@ class _Complement(ast.NodeTransformer):
             return ast.Constant(node.left.value + node.right.value)
         return node
 
+    def visit_Subscript(self, node):
+        self.generic_visit(node)
+        # (a, b)[1] -> b
+        if isinstance(node.value, (ast.Tuple, ast.List)) and isinstance(node.slice, ast.Constant) and isinstance(node.slice.value, int) and not isinstance(node.slice.value, bool) and -len(node.value.elts) <= node.slice.value < len(node.value.elts) and not any(isinstance(e, ast.Starred) for e in node.value.elts):
+            return node.value.elts[node.slice.value]
+        return node
+
     def visit_JoinedStr(self, node):
         self.generic_visit(node)
         return _merge_joined(node)
@@ -686,13 +693,16 @@ def block_paths(fi: FunctionInfo, stmts, bindings: Optional[Dict[str, object]] =
     return out
 
 
-def paths(fi: FunctionInfo, bindings: Optional[Dict[str, object]] = None) -> List[Path]:
+def paths(fi: FunctionInfo, bindings: Optional[Dict[str, object]] = None, repo=None) -> List[Path]:
     """every path through a small function with its facts, returned value and
-    stores (engine.patheval); bindings: parameter -> python constant or ast"""
+    stores (engine.patheval); bindings: parameter -> python constant or ast;
+    repo given: calls of single-path repository helpers are replaced by what
+    they return"""
     b = {}
     for k, v in (bindings or {}).items():
         b[k] = v if isinstance(v, ast.AST) else ast.Constant(v)
-    pe = PathEval(fi.node, b, post=complement_norm)
+    post = complement_norm if repo is None else (lambda x: complement_norm(inline_helpers(repo, fi, x)))
+    pe = PathEval(fi.node, b, post=post)
     out = pe.run()
     if pe.truncated:
         raise AnalysisError(f"too many paths through {fi.qualname}")
